@@ -37,3 +37,8 @@ def run(chk, tier):
         from props import evalcore as E
         efn, epaths, erows = E.eval_dyn_table(chk, F, 'R11.4.table', cfg)
         E.counting_discipline(chk, F, 'R11.4', cfg, efn, erows)
+        # dropping while unwinding releases everything the instance owns (nothing is forgotten: a leaked helper clone would make the
+        # original's later verification fail although no clone is reachable)
+        from props import c13 as _c13, leaks as _leaks
+        _c13.chain_teardown(chk, F, 'R11.5', cfg)
+        _leaks.census(chk, F, 'R11.5', cfg)
